@@ -893,6 +893,27 @@ class _PadFunctions(_ast.NodeTransformer):
 
 add("E-global-12-dead-local-and-assert-in-every-function", ALL_PROPS, "*", _package_transform(lambda t: _PadFunctions().visit(t)), None, kind="E",
     note="every function starts with `_zz_unused = 0; assert _zz_unused == 0`")
+def _perturb_bias(src):
+    import re as _re
+    t = src["hll_constants"]
+    i = t.index("bias_data")
+    m = _re.search(r"(\d+\.\d+)", t[i + 200:])
+    if not m:
+        return None
+    a, b = i + 200 + m.start(1), i + 200 + m.end(1)
+    out = dict(src)
+    out["hll_constants"] = t[:a] + repr(float(m.group(1)) + 0.5) + t[b:]
+    return out
+
+
+def _respell_tables(src):
+    out = dict(src)
+    out["hll_constants"] = "# reformatted\n" + src["hll_constants"].replace(",\n", " ,\n")
+    return out
+
+
+add("tables-09-one-bias-value-changed", ["C17"], "*", _perturb_bias, None, rules=["tables"], note="one entry of the bias table shifted by 0.5")
+add("E-tables-02-constant-tables-respelt", ["C17"], "*", _respell_tables, None, kind="E", note="layout of hll_constants.py changed, values intact")
 add("E-global-08-rename-kernel-parameters", ALL_PROPS, "*", _rename_kernel_params, None, kind="E",
     note="every parameter of every @njit kernel renamed (call sites are positional)")
 add("E-global-09-rename-private-functions", ALL_PROPS, "*", _rename_private_functions, None, kind="E",
